@@ -237,6 +237,17 @@ func c09Corpus(r *vf.Run) []parseInput {
 		add("long-token", `a=`+strings.Repeat(" ", n)+`"1"`)
 		add("long-token", `a=$`+strings.Repeat("0", n)+`1`)
 	}
+	// (round 8) every 23rd input once more at the very end, thousands of other texts later: the verdict on a text does
+	// not depend on what was parsed in between (whatever the parser remembers between calls)
+	n := len(out)
+	for i := 0; i < n; i += 23 {
+		if len(out[i].text) <= 8192 {
+			add("again/"+out[i].class, out[i].text)
+		}
+	}
+	for i := 0; i < 300 && i < n; i++ {
+		add("again/"+out[i].class, out[i].text) // and the first ones (the regression block), which were parsed earliest
+	}
 	return out
 }
 
